@@ -166,8 +166,8 @@ def run(ctx):
         with warnings.catch_warnings():
             warnings.simplefilter("ignore")
             lw = qc.de_brujin_grid(D15["n_lines"], D15["B"], D15["off"], D15["disorder"])
-        if np.any(lw.vertices.coordination_numbers < 2):
-            ctx.impl_violation("D15 witness de_brujin_grid(8, 3, ..., 0.1): dangling edge / isolated vertex (degrees " + str(sorted(set(lw.vertices.coordination_numbers.tolist()))) + ")",
+        if np.any(core.degrees(lw) < 2):
+            ctx.impl_violation("D15 witness de_brujin_grid(8, 3, ..., 0.1): dangling edge / isolated vertex (degrees " + str(sorted(set(core.degrees(lw).tolist()))) + ")",
                                dict(case="D15 witness", n_lines=8, B=3, offsets=D15["off"].tolist(), disorder=0.1, seed=D15["seed"]))
         ctx.case(("D15 witness",), nontrivial=True)
     except Exception as ex:
@@ -178,6 +178,8 @@ def run(ctx):
             if B * n_lines > (60 if quick else 130):
                 continue
             settings = [("default", None), ("scalar0.37", 0.37), ("generic", rng.uniform(-0.5, 0.5, size=B)), ("generic2", rng.uniform(-0.5, 0.5, size=B))]
+            # offsets that are generic as given but singular when moved by half a line spacing (and the other way round): 1/2, 1/4, 1/6, eighths
+            settings += [("scalar0.5", 0.5), ("scalar-0.25", -0.25), ("scalar1/6", 1 / 6), ("eighths", np.resize(np.array([0.125, 0.25, 0.125, 0.375, -0.125]), B))]
             seed = int(rng.integers(2 ** 31)); np.random.seed(seed); settings.append((f"random_offsets(seed={seed})", qc.random_offsets(B)))
             if B >= 5 and n_lines in (6, 8):
                 # generic, but only just: one line of bundle 2 misses the crossing of the middle lines of bundles 0 and 1 by eps line spacings (the exclusion
